@@ -1159,11 +1159,6 @@ def limitsOk (P : Problem) (S : Solution) : Bool := S.tours.all (limitsTourOk P)
 
 /-! ## relations -/
 
-def isSubseq : List String → List String → Bool
-  | [], _ => true
-  | _ :: _, [] => false
-  | x :: xs, y :: ys => if x == y then isSubseq xs ys else isSubseq (x :: xs) ys
-
 def isPrefix : List String → List String → Bool
   | [], _ => true
   | _ :: _, [] => false
@@ -1294,7 +1289,7 @@ def shiftAgrees (P : Problem) (t : Tour) : Bool :=
 
 def problemShapeOk (P : Problem) : Bool :=
   !hasDup (P.jobs.map (fun j => j.id)) &&
-  P.jobs.all (fun j => j.tasks.all (fun tk => tk.kind != .replacement && !tk.places.isEmpty)) &&
+  P.jobs.all (fun j => !j.tasks.isEmpty && j.tasks.all (fun tk => tk.kind != .replacement && !tk.places.isEmpty)) &&
   -- places of one job are told apart by location or tag
   P.jobs.all (fun j => !hasDup ((j.tasks.flatMap (fun tk => tk.places)).map (fun p => (p.loc, p.tag)))) &&
   -- multi-task jobs carry a tag on every place (the checker refuses them otherwise)
